@@ -1729,6 +1729,15 @@ def oracle_c10(case, ir):
     p-value of the whole sample"""
     if not valid_for_wellformed(case) or ir.get("st") != "ok" or len(case["x"]) < 2 or not case["init"]["ro"]:
         return None
+    init_ = case["init"]
+    if init_.get("test") == "betting_mart" and init_.get("bet") in (None, "fixed_bet"):
+        # risk_mono_betting holds under the guard of C11 / C13 (C13.BetGuard): a FIXED bet lies in [0, 1/u] for the
+        # test's current upper bound.  The default bet 1/2 with u > 2 (a population in other units, stream `scale+`)
+        # or a bet left behind by a raised `test.u` is outside it: factors, and with them p-values, can be negative
+        u_ = F(init_["u_now"] if init_.get("u_now") is not None else init_["u"])
+        lam_ = F(init_["kw"]["lam"]) if init_["kw"].get("lam") is not None else F(1, 2)
+        if not (0 <= lam_ <= 1 / u_):
+            return None
     if any(math.isnan(v) for v in ir["hist"]) or math.isnan(ir["p"]):
         return None       # a NaN p-value is C11's to report (known finding F27: overflow, then a factor 0); no order with NaN
     x = [F(v) for v in case["x"]]
